@@ -333,3 +333,68 @@ Proof.
   - pose proof (cubic_forward_to_residual a b c d _ r1 _ T Z1 F1). lra.
   - pose proof (cubic_forward_to_residual a b c d _ r2 _ T Z2 F2). lra.
 Qed.
+
+(* ---------------------------------------------------------------- non-vacuity: x^3 - 1 *)
+(* the perturbing arithmetic of Proofs/RootsRoundEx.v with Complex::pow returning the exact Cardano cube root -3 of this cubic
+   (pow is an oracle of the model: std_model says nothing about it -- its accuracy is the hypothesis relc eps (c_khat ..) k) *)
+From OV Require Import Proofs.RootsRoundEx.
+Definition cardano_ops (e : R) : RoundOps := {|
+  o_radd := Rplus; o_rsub := Rminus; o_rmul := Rmult; o_rdiv := Rdiv; o_rsqrt := R_sqrt.sqrt; o_rfrac := [];
+  o_kabs := Cmod; o_kabsA := fun z => RtoC (Cmod z); o_kdivr := fun z r => (z / RtoC r)%C;
+  o_kltb := fun _ _ => false; o_kleb := fun _ _ => false; o_pow := fun _ _ => RtoC (-3); o_polar := fun r _ => RtoC r;
+  o_add := o_add (pert_ops e); o_sub := o_sub (pert_ops e); o_mul := o_mul (pert_ops e); o_div := o_div (pert_ops e);
+  o_scale := o_scale (pert_ops e); o_sqrt := o_sqrt (pert_ops e) |}.
+
+Lemma cardano_nonvacuous_lemma :
+  let e := / 1024 in let O := cardano_ops e in
+  let a := RtoC 1 in let b := RtoC 0 in let c := RtoC 0 in let d := RtoC (-1) in
+  let k := RtoC (-3) in let u : C := (Ropp (/ 2), R_sqrt.sqrt 3 / 2) in
+  0 <= e <= / 100 /\ std_model e O /\ a <> C0 /\ ~ (c_d0 O a b c = C0 /\ c_d1 O a b c d = C0) /\
+  k <> C0 /\ cardano_eq a b c d k /\ (u * u + u + C1)%C = C0 /\
+  relc e (c_khat e O a b c d) k /\ relc e (c_uhat O) u /\ relc e (c_d0 O a b c) (d0x a b c) /\
+  (forall w : C, w = k \/ w = (u * k)%C \/ w = (u * u * k)%C ->
+     Cmod b + Cmod w + Cmod (d0x a b c / w)%C <= 1 * Cmod (b + w + d0x a b c / w)%C) /\
+  0 <= 1 /\ 1 * (12 * e) <= / 10 /\ cardano_val a b c k = RtoC 1.
+Proof.
+  intros e O a b c d k u.
+  assert (He : 0 <= e <= / 100) by (unfold e; lra).
+  assert (S3 : R_sqrt.sqrt 3 * R_sqrt.sqrt 3 = 3) by (apply R_sqrt.sqrt_sqrt; lra).
+  assert (Hu : (u * u + u + C1)%C = C0).
+  { unfold u, Cmult, Cplus, RtoC. cbn [fst snd]. f_equal; nra. }
+  assert (Nk : k <> C0) by (intros H; apply RtoC_inj in H; lra).
+  assert (Zd0 : c_d0 O a b c = C0).
+  { unfold c_d0, O, a, b, c. cbn [o_sub o_mul o_scale cardano_ops pert_ops]. ring. }
+  assert (Ed0x : d0x a b c = C0) by (unfold d0x, b, c; ring).
+  split; [exact He|]. split; [exact (pert_std_model e (proj1 He))|].
+  split; [intros H; apply RtoC_inj in H; lra|].
+  split.
+  { intros [_ Z1]. unfold c_d1, O, a, b, c, d in Z1. cbn [o_add o_sub o_mul o_scale cardano_ops pert_ops] in Z1.
+    rewrite INR_27 in Z1.
+    repeat (rewrite <- RtoC_mult in Z1 || rewrite <- RtoC_minus in Z1 || rewrite <- RtoC_plus in Z1).
+    apply RtoC_inj in Z1. cbn [INR] in Z1. unfold e in Z1. nra. }
+  split; [exact Nk|].
+  split.
+  { unfold cardano_eq, d1x, d0x, a, b, c, d, k.
+    repeat (rewrite <- RtoC_mult || rewrite <- RtoC_minus || rewrite <- RtoC_plus). f_equal. ring. }
+  split; [exact Hu|].
+  split.
+  { unfold relc, c_khat. unfold cubic_disc. cbn. replace (RtoC (-3) - k)%C with C0 by (unfold k; ring).
+    rewrite Cmod_0. pose proof (Cmod_ge_0 k). nra. }
+  split.
+  { assert (Eu : c_uhat O = u).
+    { unfold c_uhat, O, u. cbn [o_rdiv o_rsqrt cardano_ops]. cbn [INR]. replace (1 + 1 + 1) with 3 by ring.
+      replace (1 + 1) with 2 by ring. reflexivity. }
+    unfold relc. rewrite Eu. replace (u - u)%C with C0 by ring. rewrite Cmod_0. pose proof (Cmod_ge_0 u). nra. }
+  split.
+  { unfold relc. rewrite Zd0, Ed0x. replace (C0 - C0)%C with C0 by ring. rewrite Cmod_0. lra. }
+  split.
+  { intros w Hw. assert (Nw : w <> C0).
+    { pose proof (u_neq0 u Hu) as Nu. destruct Hw as [-> | [-> | ->]]; [exact Nk | now apply Cmult_neq_0 | now repeat apply Cmult_neq_0]. }
+    rewrite Ed0x. replace (C0 / w)%C with C0 by (field; exact Nw). unfold b.
+    replace (RtoC 0 + w + C0)%C with w by ring. rewrite Cmod_0. lra. }
+  split; [lra|]. split; [unfold e; lra|].
+  unfold cardano_val. rewrite Ed0x. unfold a, b, k.
+  replace (C0 / RtoC (-3))%C with C0 by (field; intros H; apply RtoC_inj in H; lra).
+  replace (RtoC 0 + RtoC (-3) + C0)%C with (RtoC (-3)) by ring.
+  rewrite <- !RtoC_plus, <- RtoC_mult, <- RtoC_opp, <- RtoC_div by lra. f_equal. field.
+Qed.
